@@ -521,8 +521,36 @@ def op_tag(p, op, descr) -> str:
                     node = getattr(node, attr)[idx]
                 attr, idx = path[-1]
                 k = idx + (1 if m.group(2) == "After" else 0)
-                if isinstance(node, LoopIR.For) and attr == "body":
-                    pre, post = node.body[:k], node.body[k:]
+                # with several lifts the gap may sit inside ifs below the loop: gather what precedes / follows the gap
+                # at every level up to the innermost enclosing loop
+                chain = [p._loopir_proc]
+                for a_, i_ in path[:-1]:
+                    chain.append(getattr(chain[-1], a_)[i_])
+                pre, post, loop = [], [], None
+                kk = k
+                for depth in range(len(path) - 1, -1, -1):
+                    holder = chain[depth]
+                    a_ = path[depth][0]
+                    blk = getattr(holder, a_)
+                    pre = list(blk[:kk]) + pre
+                    post = post + list(blk[kk:])
+                    if isinstance(holder, LoopIR.For):
+                        loop = holder
+                        break
+                    if depth == 0:
+                        break
+                    kk = path[depth - 1][1]  # position of `holder` in its own block: it belongs to neither side
+                    post = post  # statements after the holder at the outer level are added in the next round
+                    # exclude the holder itself from both sides
+                    outer_blk = getattr(chain[depth - 1], path[depth - 1][0])
+                    pre = list(outer_blk[:kk]) + pre
+                    post = post + list(outer_blk[kk + 1:])
+                    if isinstance(chain[depth - 1], LoopIR.For):
+                        loop = chain[depth - 1]
+                        break
+                    break
+                node = loop
+                if isinstance(node, LoopIR.For):
 
                     def reduces(ss, acc):
                         for st in ss:
